@@ -490,7 +490,7 @@ Definition cfg_plain : cfg :=
     stepTo(1.008737, 1.004368) returns ReachedReportTime at 1.008737, later than the pending scheduled event,
     with the advanced state beyond it. *)
 Definition w711_reqs : list req := [StepTo 1 10; StepTo 1 10; StepTo (1008737#1000000) (1004368#1000000)].
-Definition w711_orc : list outcome := [{| t1 := 1017473#1000000; ev := None; proj := true |}].
+Definition w711_orc : list outcome := [{| t1 := 1017473#1000000; ev := None; proj := true; t1att := 1017473#1000000 |}].
 Definition late_report (x:callrec) : bool :=
   match cr_res x with
   | Ok (ReachedReportTime, s', _) => qlt (cr_sched x) (tState s') && qlt (cr_sched x) (tAdv s')
@@ -515,7 +515,7 @@ Qed.
     reported yet: step [0,0.7] localizes an event to (0.6,0.7] while a report at 0.5 is pending; the report is
     delivered first; the next call asks for a report at 0.65 and gets ReachedEventTrigger with 0.65 inside. *)
 Definition wwin_reqs : list req := [StepTo 0 100; StepTo (1#2) 100; StepTo (65#100) 100].
-Definition wwin_orc : list outcome := [{| t1 := 7#10; ev := Some (6#10, 7#10); proj := true |}].
+Definition wwin_orc : list outcome := [{| t1 := 7#10; ev := Some (6#10, 7#10); proj := true; t1att := 8#10 |}].
 Definition report_in_window (x:callrec) : bool :=
   match cr_res x with
   | Ok (ReachedEventTrigger, s', _) => qlt (tLow s') (cr_report x) && qlt (cr_report x) (tHigh s')
@@ -546,8 +546,8 @@ Definition ex_reqs : list req :=
   [StepTo 0 1; StepTo (1#2) 1; StepTo (9#10) 1; Reinit true false; StepTo (9#10) 1; StepTo (9#10) 1;
    StepTo 3 1; StepTo 3 5; StepTo 3 5; StepTo 3 5].
 Definition ex_orc : list outcome :=
-  [{| t1 := 7#10; ev := Some (6#10, 7#10); proj := true |}; {| t1 := 1; ev := None; proj := true |};
-   {| t1 := 2; ev := None; proj := true |}].
+  [{| t1 := 7#10; ev := Some (6#10, 7#10); proj := true; t1att := 8#10 |}; {| t1 := 1; ev := None; proj := true; t1att := 1 |};
+   {| t1 := 2; ev := None; proj := true; t1att := 2 |}].
 Definition status_eqb (a b:status) : bool :=
   match a, b with
   | ReachedReportTime, ReachedReportTime | ReachedEventTrigger, ReachedEventTrigger
@@ -586,10 +586,50 @@ Proof.
   repeat match goal with |- context[if ?b then _ else _] => destruct b; simpl end; auto.
 Qed.
 
+(** the advanced state at the end of a call is the end of the last internal step taken in it (or unchanged) *)
+Fixpoint last_use (us:list use) : option use :=
+  match us with [] => None | u :: tl => match last_use tl with None => Some u | r => r end end.
+
+Lemma loop_advProj_last c report sched tMax : forall orc steps s st s' orc' us,
+  loop c report sched tMax steps s orc = Ok (st, s', orc', us) ->
+  advProj s' = match last_use us with None => advProj s | Some u => step_end_proj (u_o u) end.
+Proof.
+  induction orc as [|o orc IH]; intros steps s st s' orc' us H; rewrite loop_eq in H;
+  pose proof (switch_advProj c report sched steps s) as SS;
+  destruct (switch c report sched steps s) as [st0 s0| |s0]; try discriminate.
+  - inversion H; subst; simpl; auto.
+  - destruct (qeq (tState s0) report); [inversion H; subst; simpl; auto|].
+    destruct (qeq (tState s0) sched); [inversion H; subst; simpl; auto|].
+    destruct (qle tMax (tAdv s0)); discriminate.
+  - inversion H; subst; simpl; auto.
+  - destruct (qeq (tState s0) report); [inversion H; subst; simpl; auto|].
+    destruct (qeq (tState s0) sched); [inversion H; subst; simpl; auto|].
+    destruct (qle tMax (tAdv s0)); [discriminate|].
+    destruct (loop c report sched tMax (S steps) (after_step s0 o) orc) as [[[[st2 s2] rest] us2]| | |] eqn:EL; try discriminate.
+    inversion H; subst. rewrite (IH _ _ _ _ _ _ EL). simpl.
+    destruct (last_use us2); auto. unfold after_step. destruct (ev o) as [[lo hi]|]; reflexivity.
+Qed.
+
+(** C21: the state integration resumes from after an event that was localized strictly inside a step (the advanced
+    state produced by backUpAdvancedStateByInterpolation, which is also the state handed to event handlers) has
+    passed projection -- whatever the project-interpolated-states option, whatever the per-step flag, for every
+    state, request and oracle *)
+Lemma state_resumed_after_backed_up_event_projected c s report sched orc st s' orc' us u :
+  stepTo c s report sched orc = Ok (st, s', orc', us) -> last_use us = Some u -> backed_up (u_o u) = true ->
+  advProj s' = true.
+Proof.
+  unfold stepTo. destruct (startCI s); intros H HL HB; [inversion H; subst; discriminate|].
+  rewrite (loop_advProj_last _ _ _ _ _ _ _ _ _ _ _ H), HL. unfold step_end_proj. rewrite HB. reflexivity.
+Qed.
+
+(** an oracle answer is acceptable for C21 if its step end was backed up (always projected) or the accepted
+    attempt left attemptDAEStep through the projecting exit *)
+Definition step_proj_ok (o:outcome) : Prop := step_end_proj o = true.
+
 Lemma loop_advProj c report sched tMax : forall orc steps s st s' orc' us,
   loop c report sched tMax steps s orc = Ok (st, s', orc', us) ->
-  advProj s = true -> Forall (fun o => proj o = true) orc ->
-  advProj s' = true /\ Forall (fun o => proj o = true) orc'.
+  advProj s = true -> Forall step_proj_ok orc ->
+  advProj s' = true /\ Forall step_proj_ok orc'.
 Proof.
   induction orc as [|o orc IH]; intros steps s st s' orc' us H HA HO; rewrite loop_eq in H;
   pose proof (switch_advProj c report sched steps s) as SS;
@@ -614,14 +654,14 @@ Definition proj_ok (c:cfg) (x:callrec) : Prop :=
   end.
 
 Lemma every_returned_state_projected_partial c : forall reqs s orc,
-  Inv c s -> reqs_ok c s reqs orc -> advProj s = true -> Forall (fun o => proj o = true) orc ->
+  Inv c s -> reqs_ok c s reqs orc -> advProj s = true -> Forall step_proj_ok orc ->
   Forall (proj_ok c) (run c s reqs orc).
 Proof.
   unfold reqs_ok; induction reqs as [|[r sc|l t] rs IH]; intros s orc HI HR HA HO; simpl in *; auto.
   - destruct HR as [HR1 HR2].
     destruct (stepTo c s r sc orc) as [[[[st s'] orc'] us]| | |] eqn:E.
     + destruct HR2 as [HU HR2]. pose proof (stepTo_spec _ _ _ _ _ _ _ _ _ E HI HR1 HU) as P.
-      assert (HP: advProj s' = true /\ Forall (fun o => proj o = true) orc').
+      assert (HP: advProj s' = true /\ Forall step_proj_ok orc').
       { unfold stepTo in E. destruct (startCI s); [inversion E; subst; simpl; auto|]. eapply loop_advProj; eauto. }
       destruct HP as [HP1 HP2]. destruct P as (PI & _).
       constructor; [unfold proj_ok; simpl; split; auto; unfold Inv in PI; tauto|]. apply IH; auto.
@@ -642,8 +682,11 @@ Qed.
 
 Lemma c21_hypotheses_satisfiable :
   Inv ex_cfg (init_state 0) /\ reqs_ok ex_cfg (init_state 0) ex_reqs ex_orc /\ advProj (init_state 0) = true /\
-  Forall (fun o => proj o = true) ex_orc.
+  Forall step_proj_ok ex_orc.
 Proof.
   destruct clause_hypotheses_satisfiable as (A & B & _). split; [exact A|]. split; [exact B|]. split; [reflexivity|].
   unfold ex_orc. repeat constructor.
 Qed.
+
+Lemma c21_backed_up_example : existsb backed_up ex_orc = true.
+Proof. vm_compute. reflexivity. Qed.
